@@ -1,4 +1,5 @@
 import KanidmProofs.Lemmas.ReplMerge
+import KanidmProofs.Lemmas.ReplClash
 import KanidmModel.ReplSystem
 /-!
 # C08 — replicas converge
@@ -280,6 +281,39 @@ theorem conflict_copy_only_at_origin (txn : Cid) (X Y : Live) (h : cidLt X.crAt 
 example :
     (resolveAdd ⟨9, 2⟩ ⟨⟨1, 1⟩, [(0, ⟨1, 1⟩)], [(0, 5)]⟩ ⟨⟨2, 2⟩, [(0, ⟨2, 2⟩)], [(0, 6)]⟩).1 = true
       ∧ (resolveAdd ⟨9, 3⟩ ⟨⟨1, 1⟩, [(0, ⟨1, 1⟩)], [(0, 5)]⟩ ⟨⟨2, 2⟩, [(0, ⟨2, 2⟩)], [(0, 6)]⟩).1 = false := by
+  decide
+
+/-- **Convergence with uuid clashes.**  The same statement for the consumer's whole per-entry step
+(`applyEntry`: conflict test, then `resolve_add_conflict` or `merge_state`, then `seal`), with the same
+uuid created on several replicas: two replicas that have received the same set of states hold the same
+view, namely (`clash_is_resolve`) the tombstone with the earliest `at` if any state is a tombstone, else
+the *earliest creation*, whose every replicated attribute carries the greatest change cid delivered
+among the states of that creation.  Coherence is only needed within one creation. -/
+theorem replicated_attrs_converge_with_clashes (vm : Nat → Nat → Option Nat) (hvm : ∀ n o, vm n o = none)
+    (repl : Nat → Bool) (txn₁ txn₂ : Cid) (w : Nat → St)
+    (hcoh : ∀ i j, VCohA (view repl (w i)) (view repl (w j)))
+    (t₁ t₂ : Tree) (hset : ∀ i, i ∈ t₁.leaves ↔ i ∈ t₂.leaves) :
+    view repl (t₁.evalA vm repl txn₁ w) = view repl (t₂.evalA vm repl txn₂ w) := by
+  rw [view_evalA vm hvm, view_evalA vm hvm]
+  exact treeSpecA_unique hcoh (treeSpecA_congr hset (treeSpecA_evalVA hcoh t₁)) (treeSpecA_evalVA hcoh t₂)
+
+theorem clash_is_resolve (vm : Nat → Nat → Option Nat) (hvm : ∀ n o, vm n o = none) (repl : Nat → Bool)
+    (txn : Cid) (w : Nat → St) (hcoh : ∀ i j, VCohA (view repl (w i)) (view repl (w j))) (t : Tree) :
+    TreeSpecA (fun i => view repl (w i)) (fun i => i ∈ t.leaves) (view repl (t.evalA vm repl txn w)) := by
+  rw [view_evalA vm hvm]
+  exact treeSpecA_evalVA hcoh t
+
+/-- non-vacuity: the uuid created at ts 1 on server 1 and at ts 2 on server 2, each edited afterwards;
+whatever the order, the earlier creation with its latest description survives -/
+example :
+    let w : Nat → St := fun i =>
+      if i = 0 then .live ⟨⟨1, 1⟩, [(0, ⟨1, 1⟩), (1, ⟨1, 1⟩)], [(0, 10), (1, 11)]⟩
+      else if i = 1 then .live ⟨⟨2, 2⟩, [(0, ⟨2, 2⟩), (1, ⟨9, 2⟩)], [(0, 20), (1, 29)]⟩
+      else .live ⟨⟨1, 1⟩, [(0, ⟨1, 1⟩), (1, ⟨5, 1⟩)], [(0, 10), (1, 15)]⟩
+    (Tree.node (.leaf 1) (.node (.leaf 2) (.leaf 0))).evalA (fun _ _ => none) (fun _ => true) ⟨20, 1⟩ w
+      = .live ⟨⟨1, 1⟩, [(0, ⟨1, 1⟩), (1, ⟨5, 1⟩)], [(0, 10), (1, 15)]⟩
+    ∧ (Tree.node (.node (.leaf 0) (.leaf 1)) (.leaf 2)).evalA (fun _ _ => none) (fun _ => true) ⟨20, 2⟩ w
+      = .live ⟨⟨1, 1⟩, [(0, ⟨1, 1⟩), (1, ⟨5, 1⟩)], [(0, 10), (1, 15)]⟩ := by
   decide
 
 /-! ## The generated operators and sides are the ones the property needs -/
